@@ -7,8 +7,16 @@
   value.  The proofs are in Proofs/Lemmas/JsonRefine.lean (single-token lemmas for the three value
   positions — top level, array frame, object frame that has just read a key —, `runNF_append`, and
   mutual structural recursion over values / items / members).
+
+  The TEXT level (`Xsel/JsonText.lean`: `parseText`, `tokensOfText` = what `Decoder.Token()` yields for
+  the characters of a stream of JSON texts) is connected at the end: `json_text_accepted` (every text
+  the reader accepts is mapped to the documented trees of its values) and `json_text_refines` (the
+  canonical rendering of a value, also with white space inserted, is such a text and denotes that
+  value); the proofs are in Proofs/Lemmas/JsonText.lean and Proofs/Lemmas/JsonNum.lean.
 -/
 import Proofs.Lemmas.JsonRefine
+import Proofs.Lemmas.JsonText
+import Proofs.Lemmas.JsonNum
 
 namespace Xsel.C16
 open Xsel Xsel.Json
@@ -87,5 +95,46 @@ theorem json_adapter_texts (vs : List JVal) :
   induction vs with
   | nil => rfl
   | cons v vs ih => simp [Json.texts_append, Json.texts_eventsOf, ih]
+
+/-! ### from the characters of the text -/
+
+/-- **json_text_accepted** — whenever the characters are a stream of JSON texts with the values
+    `vs`, the adapter run on the tokens of the text returns the events of the documented trees of
+    `vs`, in order -/
+theorem json_text_accepted (cs : Chars) (vs : List JVal) (h : Json.parseText cs = some vs) :
+    (Json.tokensOfText cs).bind Json.adapter = some (vs.flatMap Json.eventsOf) := by
+  simp [Json.tokensOfText, h, Json.json_refines vs]
+
+/-- **json_text_refines** — end to end from the text: the canonical rendering of a value (numbers
+    `numOkJ`: their 'g' text is read back as the same double) is tokenised to the tokens of the
+    value and the adapter returns exactly the events of its documented tree -/
+theorem json_text_refines (v : JVal) (h : Json.wfJ v = true) :
+    (Json.tokensOfText (Json.renderJson v)).bind Json.adapter = some (Json.eventsOf v) := by
+  simpa using json_text_accepted _ [v] (Json.parseText_render v h)
+
+/-- … and the white space `sp` (any mix of space, tab, newline, carriage return) after `[` `{`,
+    around `,` `:` and before `]` `}`, and `ws1`/`ws2` before and after the text, change nothing -/
+theorem json_text_refines_ws (ws1 sp ws2 : Chars) (v : JVal) (h1 : Json.AllWs ws1)
+    (hsp : Json.AllWs sp) (h2 : Json.AllWs ws2) (h : Json.wfJ v = true) :
+    (Json.tokensOfText (ws1 ++ (Json.renderW sp v ++ ws2))).bind Json.adapter =
+      some (Json.eventsOf v) := by
+  simpa using json_text_accepted _ [v] (Json.parseText_renderW_ws ws1 sp ws2 v h1 hsp h2 h)
+
+/-- … in particular for EVERY value whose numbers are finite doubles (`finJ`: no NaN, no infinity —
+    these have no JSON text): Go's 'g' text of a double is read back as the same double
+    (`numOkJ_of_double`, Proofs/Lemmas/JsonNum.lean) -/
+theorem json_text_refines_fin (v : JVal) (h : Json.finJ v = true) :
+    (Json.tokensOfText (Json.renderJson v)).bind Json.adapter = some (Json.eventsOf v) :=
+  json_text_refines v (Json.wfJ_of_finJ v h)
+
+/-- a stream of values, each followed by a newline (the output of `json.Encoder`) -/
+theorem json_text_refines_stream (vs : List JVal) (h : ∀ v ∈ vs, Json.wfJ v = true) :
+    (Json.tokensOfText (Json.renderStream vs)).bind Json.adapter = some (vs.flatMap Json.eventsOf) :=
+  json_text_accepted _ vs (Json.parseText_stream vs h)
+
+/-- non-vacuity: the text `{"a":[1,"x\u000a",null],"a":-2.5}` -/
+example : Json.wfJ Json.sampleV = true := by decide +kernel
+example : (Json.tokensOfText "{\"a\":[1,\"x\\u000a\",null],\"a\":-2.5}".toList).bind Json.adapter =
+    some (Json.eventsOf Json.sampleV) := by decide +kernel
 
 end Xsel.C16
